@@ -4,8 +4,9 @@
    explained by spec/Bih.tla.  One record = one step:
 
      Config   start of a run (mode replay | rand | unit); runs may be concatenated
-     Build    BIHBuilder::operator()(bboxes): the boxes as stored by the tree, the tree as
-              stored (inner nodes, leaves, inf_volids)      -> structural clauses
+     Build    BIHBuilder::operator()(bboxes): the argument (in), the boxes as stored by the tree
+              (must be the argument: BoxesStored), the tree as stored (inner nodes, leaves,
+              inf_volids)                                   -> structural clauses
      Find     BIHTraverser::operator()(point, predicate) for one point of the last Build and a
               list of predicates "id in m": result r and the predicate's calls  -> lookup clauses
      Unit     a real ORANGE unit made of the boxes: SimpleUnitTracker::initialize at every point
@@ -70,13 +71,15 @@ TBuild ==
   /\ Rec.k = run.builds
   /\ run' = [run EXCEPT !.builds = @ + 1]
   /\ LET t == TreeOf(Rec)
-         V == Named(RecordSane(Rec), "Bih.TreeRecordSane") \cup StructViolations(Rec.boxes, t)
-         D == IF V = {} THEN StructDrift(Rec.boxes, t) ELSE {} IN
+         V == Named(RecordSane(Rec), "Bih.TreeRecordSane")
+              \cup Named(Rec.boxes = Rec.in, "Bih.BoxesStored")
+              \cup StructViolations(Rec.in, t)
+         D == IF V = {} THEN StructDrift(Rec.in, t) ELSE {} IN
      /\ viol' = Bump(viol, V)
      /\ drift' = Bump(drift, D)
      /\ sane' = (V = {})
      /\ ord' = IF V = {} THEN VisitOrder(t) ELSE <<>>
-     /\ B' = Rec.boxes /\ T' = t /\ cur' = Rec.k
+     /\ B' = Rec.in /\ T' = t /\ cur' = Rec.k
      /\ stat' = [stat EXCEPT !.builds = @ + 1,
                              !.inner = @ + Rec.ninner,
                              !.multileaf = @ + Cardinality({i \in DOMAIN Rec.nodes :
